@@ -84,24 +84,25 @@ type Case struct {
 var seq atomic.Int64
 
 type Sys struct {
-	r      *ev.Run
-	id     string
-	conf   Conf
-	db     string
-	h      handler.Handler4
-	inst   *rangeplugin.PluginState
-	lease  string
-	first  map[string]string    // ghost: chaddr hex -> address first replied
-	prom   map[string]time.Time // ghost: chaddr hex -> end of the lease last promised, measured from the harness clock before the reply
-	hist   []Op
-	start  uint32
-	end    uint32
-	dead   bool
-	broken bool
-	aged   map[string]bool // ghost: clients whose lease ran out since they were last answered
-	shift  int             // the range currently configured is conf's moved by this much
-	crash  bool            // evaluate the crash/restart oracle after every live op
-	ro     bool            // the lease database is read-only since the last restart (fault injected by the harness)
+	r        *ev.Run
+	id       string
+	conf     Conf
+	db       string
+	h        handler.Handler4
+	inst     *rangeplugin.PluginState
+	lease    string
+	first    map[string]string    // ghost: chaddr hex -> address first replied
+	prom     map[string]time.Time // ghost: chaddr hex -> end of the lease last promised, measured from the harness clock before the reply
+	hist     []Op
+	start    uint32
+	end      uint32
+	dead     bool
+	broken   bool
+	aged     map[string]bool // ghost: clients whose lease ran out since they were last answered
+	shift    int             // the range currently configured is conf's moved by this much
+	crash    bool            // evaluate the crash/restart oracle after every live op
+	ro       bool            // the lease database is read-only since the last restart (fault injected by the harness)
+	agedLong map[string]bool // ghost: clients whose lease ran out more than two days ago
 }
 
 func ip2u(s string) uint32 { return binary.BigEndian.Uint32(net.ParseIP(s).To4()) }
@@ -113,7 +114,7 @@ func u2ip(u uint32) string {
 }
 
 func NewSys(r *ev.Run, id string, c Conf, crash bool) *Sys {
-	s := &Sys{r: r, id: id, conf: c, first: map[string]string{}, prom: map[string]time.Time{}, aged: map[string]bool{}, lease: c.Lease, start: ip2u(c.Start), end: ip2u(c.End), crash: crash}
+	s := &Sys{r: r, id: id, conf: c, first: map[string]string{}, prom: map[string]time.Time{}, aged: map[string]bool{}, agedLong: map[string]bool{}, lease: c.Lease, start: ip2u(c.Start), end: ip2u(c.End), crash: crash}
 	s.db = filepath.Join(srv.Scratch(), fmt.Sprintf("lease-%d.sqlite", seq.Add(1)))
 	if c.Fixture != "" {
 		s.fixtureDB()
@@ -226,6 +227,10 @@ func (s *Sys) Ops() []Op {
 		// wall-clock time passes: every lease handed out so far runs out
 		ops = append(ops, Op{Kind: "age"})
 	}
+	if len(s.agedLong) < len(s.first) && !s.conf.Lean {
+		// ... and two days later
+		ops = append(ops, Op{Kind: "age", Dur: "49h"})
+	}
 	return ops
 }
 
@@ -260,6 +265,9 @@ func (s *Sys) Key() string {
 	var ag []string
 	for m := range s.aged {
 		ag = append(ag, m)
+	}
+	for m := range s.agedLong {
+		ag = append(ag, "long:"+m)
 	}
 	sort.Strings(ag)
 	return fmt.Sprintf("recs=%v nbits=%d lease=%v ghost=%s expired=%v shift=%d ro=%v", recs, len(d.Bits), d.LeaseTime, s.ghostKey(), ag, s.shift, s.ro)
@@ -333,8 +341,11 @@ func (s *Sys) Apply(op Op, live bool) (obs string) {
 			verifsched.AdvanceGlobal(d)
 		}
 		for m := range s.first {
-			if op.Dur == "" {
+			if op.Dur == "" || d >= 24*time.Hour {
 				s.aged[m] = true
+			}
+			if d >= 24*time.Hour {
+				s.agedLong[m] = true
 			}
 			s.prom[m] = s.prom[m].Add(-d)
 		}
@@ -530,6 +541,7 @@ func (s *Sys) Apply(op Op, live bool) (obs string) {
 			s.first[op.MAC] = ys
 		}
 		delete(s.aged, op.MAC)
+		delete(s.agedLong, op.MAC)
 		// the end of the lease promised to the client is what the reply says (option 51)
 		ltNow, _ := time.ParseDuration(s.lease)
 		if w, err := pkt.ParseV4(out.ToBytes()); err == nil {
@@ -1253,9 +1265,13 @@ func runContention(r *ev.Run) {
 // Crash explores the request/restart/aging/read-only graphs for property id (C01): only
 // crashes (panic, mutex left held, non-termination through the operation watchdog) are
 // verdicts; the search is cut at budget.
-func Crash(r *ev.Run, id string, budget time.Duration) {
+func Crash(r *ev.Run, id string, budget time.Duration, small bool) {
 	dl := time.Now().Add(budget)
-	for _, c := range confs(false) {
+	cs := confs(false)
+	if small {
+		cs = cs[:1] // the 2-address range only
+	}
+	for _, c := range cs {
 		c := c
 		res := explore.Explore(r, explore.Config[Op]{
 			Name:      fmt.Sprintf("range %s-%s", c.Start, c.End),
